@@ -44,6 +44,8 @@ def enabled(events, maxnest):
     out += [{"k": "cmake_parse_arguments"}, {"k": "set", "doc": 0}]
     if st:
         out.append({"k": "close"})
+        if st[-1][0] in ("function", "macro"):
+            out.append({"k": "close", "doc": 1})     # a doccomment directly before endfunction()/endmacro()
     return out
 
 
